@@ -219,29 +219,14 @@ Lemma bundled_http_partition :
       length undecided_http_lines) = http_partition_sizes.
 Proof. vm_compute. repeat split; reflexivity. Qed.
 
-(* KV6 on a live signature *)
-Lemma witness_kv6 : forallb (tcp_wok false) wit_kv6 = true /\ length wit_kv6 = 1%nat
-  /\ forallb (fun w => existsb (N.eqb (fst w)) live_tcp_lines
-                       && match parse_tcp_case (snd w) with
-                          | Some (k, _, x) => match tcp_entry k (fst w), seg_of x with
-                                              | Some (_, _, s), Some g => kv6 s g
-                                              | _, _ => false end
-                          | None => false end) wit_kv6 = true.
-Proof. vm_compute. repeat split; reflexivity. Qed.
-Lemma known_kv6_refuted :
-  exists line, In line live_tcp_lines /\ tcp_refuted false line
-               /\ forallb (fun w => (fst w =? line) && match parse_tcp_case (snd w) with
-                                                       | Some (k, _, x) => match tcp_entry k line, seg_of x with
-                                                                           | Some (_, _, s), Some g => kv6 s g
-                                                                           | _, _ => false end
-                                                       | None => false end) wit_kv6 = true.
-Proof.
-  destruct witness_kv6 as (W & LEN & KV).
-  destruct wit_kv6 as [|w [|? ?]] eqn:E; try discriminate.
-  exists (fst w). cbn [forallb] in *. rewrite andb_true_r in *.
-  apply andb_true_iff in KV. destruct KV as [IN KV].
-  split; [|split].
-  - apply existsb_exists in IN. destruct IN as [y [IN EQ]]. apply N.eqb_eq in EQ. subst. exact IN.
-  - apply (tcp_witness_refutes bundled_db tcp_entry false w). exact W.
-  - rewrite N.eqb_refl. cbn [andb]. exact KV.
-Qed.
+(* the former KV6 witness (a Linux 3.11 SYN over IPv6; df / id+ of the signature were not ignored before ecf5f15):
+   it conforms to a live signature, is in no known class and gets an admissible label now *)
+Lemma former_kv6_witness_agrees :
+  forallb (fun w => match parse_tcp_case (snd w) with
+                    | Some (k, line, x) =>
+                        (line =? fst w) && existsb (N.eqb line) live_tcp_lines &&
+                        match judge_tcp k line x, x with
+                        | Some v, T6 _ => v_admissible v && negb (v_known_traffic v)
+                        | _, _ => false end
+                    | None => false end) wit_former_kv6 = true /\ length wit_former_kv6 = 1%nat.
+Proof. vm_compute. split; reflexivity. Qed.
